@@ -9,7 +9,8 @@ Section Sem.
 Variable litv : list ascii -> R.
 Variable var : list ascii -> R.
 Variable fn : list ascii -> list R -> R.
-Variable mag : nat -> R.          (* |alpha|, |beta|, |gamma| *)
+Variable mag : nat -> R.          (* |alpha|, |beta|, |gamma| and the other printed numbers *)
+Variable idx : list ascii -> R -> R.   (* array subscripts: y[IDX_x] *)
 
 Fixpoint denote (e : ex) : R :=
   match e with
@@ -27,6 +28,16 @@ Fixpoint denote (e : ex) : R :=
       | _ => 0
       end
   | ECall f args => fn f (map denote args)
+  | EIdx a i => idx a (denote i)
+  | ERel ge a b =>
+      if ge then (if Rle_lt_dec (denote b) (denote a) then 1 else 0)
+      else (if Rlt_le_dec (denote b) (denote a) then 1 else 0)
+  | ECond c a b =>
+      match c with
+      | ERel true x y => if Rle_lt_dec (denote y) (denote x) then denote a else denote b
+      | ERel false x y => if Rlt_le_dec (denote y) (denote x) then denote a else denote b
+      | _ => if Req_EM_T (denote c) 0 then denote b else denote a
+      end
   end.
 
 Definition sem (r : refusal + txt) : option R :=
